@@ -17,6 +17,17 @@ fn lua_table(m: &BTreeMap<String, u32>) -> String {
     s
 }
 
+/// Scheduling points at the *top level* of a script, after its definitions: the task that loads
+/// the script returns Pending `n` times between defining `validate` and looking it up, which is
+/// where interpreter state shared between blocks (if a change introduces any) gets overwritten.
+fn load_yield_suffix(n: u32) -> String {
+    if n == 0 {
+        String::new()
+    } else {
+        format!("for _ = 1, {n} do coroutine.yield() end\n")
+    }
+}
+
 pub fn good_script(yields: &BTreeMap<String, u32>, busy: &BTreeMap<String, u32>) -> String {
     format!(
         r#"local Y = {y}
@@ -72,12 +83,13 @@ pub fn write_script(
     spec: &ScriptSpec,
     yields: &BTreeMap<String, u32>,
     busy: &BTreeMap<String, u32>,
+    load_yields: u32,
 ) -> std::io::Result<()> {
     let p = root.join(&spec.path);
     if let Some(parent) = p.parent() {
         std::fs::create_dir_all(parent)?;
     }
-    let text: Vec<u8> = match spec.kind {
+    let mut text: Vec<u8> = match spec.kind {
         ScriptKind::Good => good_script(yields, busy).into_bytes(),
         ScriptKind::LateRuntimeError => late_error_script(yields).into_bytes(),
         ScriptKind::SyntaxError => b"function validate(ctx, content)\n  return nil\nen\n".to_vec(),
@@ -97,6 +109,20 @@ pub fn write_script(
             return Ok(());
         }
     };
+    if matches!(
+        spec.kind,
+        ScriptKind::Good
+            | ScriptKind::LateRuntimeError
+            | ScriptKind::RuntimeError
+            | ScriptKind::ErrorTable
+            | ScriptKind::NoValidate
+            | ScriptKind::ValidateNotFunction
+            | ScriptKind::ReturnsNumber
+            | ScriptKind::ReturnsBoolean
+            | ScriptKind::ReturnsTable
+    ) {
+        text.extend_from_slice(load_yield_suffix(load_yields).as_bytes());
+    }
     std::fs::write(&p, text)
 }
 
